@@ -11,7 +11,10 @@ use std::hash::{Hash, Hasher};
 use std::path::{Path, PathBuf};
 use std::time::Instant;
 
-pub const VERIF_DIR: &str = "/verif";
+/// Root of the verification tree (evidence, replays, known findings).
+pub fn verif_dir() -> PathBuf {
+    PathBuf::from(std::env::var("VERIF_DIR").unwrap_or_else(|_| "/verif".to_string()))
+}
 
 #[derive(Clone, Copy, Debug, PartialEq, Eq, Serialize, Deserialize)]
 #[serde(rename_all = "lowercase")]
@@ -447,7 +450,7 @@ pub struct KnownFile {
 }
 
 pub fn load_known(property: &str) -> Vec<KnownFinding> {
-    let p = Path::new(VERIF_DIR).join("known_findings.json");
+    let p = verif_dir().join("known_findings.json");
     let Ok(s) = std::fs::read_to_string(&p) else {
         return vec![];
     };
@@ -479,7 +482,7 @@ pub fn write_replay(
     seed: u64,
     v: &FoundViolation,
 ) -> PathBuf {
-    let dir = Path::new(VERIF_DIR).join("replays").join(property);
+    let dir = verif_dir().join("replays").join(property);
     let _ = std::fs::create_dir_all(&dir);
     let name = format!(
         "{}-{}-{:016x}.json",
@@ -531,7 +534,7 @@ pub fn write_evidence(
     wall_s: f64,
     new_violations: usize,
 ) -> std::io::Result<()> {
-    let dir = Path::new(VERIF_DIR).join("evidence");
+    let dir = verif_dir().join("evidence");
     std::fs::create_dir_all(&dir)?;
     let repo_head = std::process::Command::new("git")
         .args(["-C", "/repo", "rev-parse", "HEAD"])
